@@ -86,7 +86,7 @@ func TokenType(s string) schema.TokenType {
 	}
 
 	switch s {
-	case "string":
+	case "string", "enum": // an enum alternative lists its values itself; it goes the way of the primitives
 		return schema.TokenTypeString
 	case "boolean":
 		return schema.TokenTypeBoolean
